@@ -24,7 +24,7 @@ EXPLANATION = (
     'the bandwidth and normalisation constants computed by the constructor satisfy the documented closed forms (Gabor / '
     'gammatone 3 dB crossing, ERB = edge spacing, unit peak gain, unit L2 norm with scale_l2_norm). Triangular / Fbank '
     'responses are executed with symbolic vertices and a symbolic DFT bin and compared with the documented triangle.')
-BOUNDS = {'quick': 'num_filts 1-3 (Gabor / gammatone 1-2); sampling rates 8000, 16000, 11025; gammatone orders 1-6; triangle: DFT widths 8, 9, 64 with filters spanning <= 4 bins',
+BOUNDS = {'quick': 'num_filts 1-3 (Gabor 1-2, gammatone 1); sampling rates 8000, 16000, 11025; gammatone orders 1-6; triangle: DFT widths 8, 9, 64 with filters spanning <= 4 bins',
           'thorough': 'num_filts 1-5; orders 1-8; widths 8, 9, 64, 127, 512'}
 OUTSIDE = ['discrete-time norm vs the continuous closed form (||h||_2 = 1 is checked for the continuous formula)', 'floating point',
            'responses whose support spans half the sampling rate or more (periodic images overlap: excluded by the property)',
@@ -42,9 +42,14 @@ def configs(tier, seed):
         for rate in RATES:
             cfgs.append(dict(kind='range', name='range %s rate%d' % (cls, rate), cls=cls, rate=rate))
         for nf in ((1, 2, 3) if tier == 'quick' else (1, 2, 3, 4, 5)):
-            if cls in ('GaborFilterBank', 'ComplexGammatoneFilterBank') and nf > (2 if tier == 'quick' else 3):
+            if cls == 'GaborFilterBank' and nf > (2 if tier == 'quick' else 3):
                 continue
+            if cls == 'ComplexGammatoneFilterBank' and nf > (1 if tier == 'quick' else 2):
+                continue      # nonlinear support arithmetic: keep the quick tier well inside the solver's comfort zone
             cfgs.append(dict(kind='layout', name='layout %s nf%d' % (cls, nf), cls=cls, nf=nf))
+        # ranges reaching into the unspecified strip (Nyquist, Nyquist + 1]: the constructor may reject them, but whatever it
+        # accepts must be a sane bank (centres increasing, inside their supports, within [0, Nyquist])
+        cfgs.append(dict(kind='layout', name='layout %s nf2 strip' % cls, cls=cls, nf=2, strip=True))
     for erb, l2 in itertools.product((False, True), (False, True)):
         cfgs.append(dict(kind='consts', name='consts gabor erb=%s l2=%s' % (erb, l2), cls='GaborFilterBank', erb=erb, l2=l2, order=0))
         for order in (range(1, 7) if tier == 'quick' else range(1, 9)):
@@ -137,12 +142,28 @@ def run_layout(cfg):
     def body():
         c = Ctx.cur
         low, high = z3.Real('low_hz'), z3.Real('high_hz')
-        c.assume(low >= 0, low < high, high <= rate / 2)
+        strip = cfg.get('strip', False)
+        c.assume(low >= 0, low < high, high <= (rate / 2 + 1 if strip else rate / 2))
+        if strip:
+            c.assume(high > rate / 2)
         try:
             b = fc.construct(ns, cls, SReal(low), SReal(high), rate, nf)
+        except ValueError as e:
+            if strip:
+                return ('rejected',)
+            return ('exception', 'ValueError: %s' % e)
         except Exception as e:
             symex.guard(e)
             return ('exception', '%s: %s' % (type(e).__name__, e))
+        if strip:
+            centers = [rv(v) for v in b.centers_hz]
+            sup = [(rv(l), rv(h)) for l, h in b.supports_hz]
+            bad = [z3.BoolVal(len(centers) != nf)]
+            for i in range(len(centers) - 1):
+                bad.append(centers[i] >= centers[i + 1])
+            for i in range(len(centers)):
+                bad += [centers[i] <= sup[i][0], centers[i] >= sup[i][1], centers[i] < 0, centers[i] > rate / 2]
+            return ('ok', bad)
         if cls in ('TriangularOverlappingFilterBank', 'Fbank'):
             pts = [rv(v) for v in b._vertices]
             if len(pts) != nf + 2:
@@ -185,6 +206,9 @@ def run_layout(cfg):
         if res is None:
             continue
         ob += 1
+        if res[0] == 'rejected':
+            dis += 1
+            continue
         if res[0] != 'ok':
             m = ctx.model()
             viol.append(dict(kind='layout', cls=cls, nf=nf, what='%s %s' % (res[0], res[1]), low_hz=_fval(m, 'low_hz'), high_hz=_fval(m, 'high_hz')))
@@ -328,10 +352,7 @@ def run_triangle(cfg):
         c = Ctx.cur
         l, m, r = z3.Reals('l m r')
         c.assume(0 <= l, l < m, m < r, r <= rate / 2, (r - l) * width <= 4 * rate)
-        b = T.__new__(T)
-        b._rate = rate
-        b._analytic = analytic
-        b._vertices = (SReal(l), SReal(m), SReal(r))
+        b = fc.handbuilt(ns, cls, _rate=rate, _analytic=analytic, _vertices=(SReal(l), SReal(m), SReal(r)))
         try:
             full = b.get_frequency_response(0, width)
         except Exception as e:
@@ -412,9 +433,19 @@ def replay(w):
             return _replay_consts(w, C, np)
         if k == 'layout':
             for sc in (scales.MelScaling(), scales.BarkScaling(), scales.LinearScaling(0.0)):
-                lo, hi = max(0.0, w.get('low_hz', 20.0)), min(8000.0, max(w.get('high_hz', 4000.0), 100.0))
+                lo, hi = max(0.0, w.get('low_hz', 20.0)), min(8001.0, max(w.get('high_hz', 4000.0), 100.0))
                 if lo >= hi:
                     lo, hi = 20.0, 4000.0
+                if hi > 8000.0:
+                    # strip (Nyquist, Nyquist+1]: an accepted range must still give a sane bank
+                    try:
+                        b = C(num_filts=w['nf'], low_hz=lo, high_hz=hi, sampling_rate=16000) if w['cls'] == 'Fbank' else C(sc, num_filts=w['nf'], low_hz=lo, high_hz=hi, sampling_rate=16000)
+                    except ValueError:
+                        continue
+                    cs = list(b.centers_hz)
+                    if any(not (a < b2) for a, b2 in zip(cs, cs[1:])) or any(not (l < c < h) for c, (l, h) in zip(cs, b.supports_hz)) or any(not (0 <= c <= 8000) for c in cs):
+                        return {'reproduced': True, 'detail': '%s accepted low_hz=%r high_hz=%r at 16 kHz: centres %s supports %s' % (w['cls'], lo, hi, cs, b.supports_hz)}
+                    continue
                 b = C(num_filts=w['nf'], low_hz=lo, high_hz=hi, sampling_rate=16000) if w['cls'] == 'Fbank' else C(sc, num_filts=w['nf'], low_hz=lo, high_hz=hi, sampling_rate=16000)
                 cs = list(b.centers_hz)
                 if any(a >= b2 for a, b2 in zip(cs, cs[1:])) or any(not (l < c < h) for c, (l, h) in zip(cs, b.supports_hz)) or any(c > 8000 or c < 0 for c in cs):
@@ -431,10 +462,7 @@ def replay(w):
             for verts in ((w['l'], w['m'], w['r']), (300.0, 1000.0, 1900.0), (0.0, 500.0, 4000.0)):
                 if not (0 <= verts[0] < verts[1] < verts[2] <= 4000):
                     continue
-                b = C.__new__(C)
-                b._rate = 8000
-                b._analytic = w['analytic']
-                b._vertices = verts
+                b = fc.real_handbuilt(C, _rate=8000, _analytic=w['analytic'], _vertices=verts)
                 full = b.get_frequency_response(0, width)
                 mel = scales.MelScaling().hertz_to_scale
                 for kk in range(width):
